@@ -20,8 +20,39 @@ SIBLINGS = True  # consecutive cases with identical structure and different gate
 ANCHORS = ["tx:acyclic_unroll"]
 
 
+def gen_deep_ring(rng):
+    """One loop through 550..900 gates (an enabling gate followed by buffers / inverters): the unrolled result is
+    deeper than the interpreter's recursion limit.  Its stable states are known in closed form."""
+    n = rng.randint(550, 900)
+    cd = G.new_cdict("ring")
+    cd["nodes"].append(["en", "input", False])
+    cd["nodes"].append(["r0", rng.choice(["and", "nand", "or", "nor", "xor", "xnor"]), False])
+    for i in range(1, n):
+        cd["nodes"].append([f"r{i}", rng.choice(["buf", "buf", "not"]), i == n - 1 or rng.random() < 0.002])
+        cd["edges"].append([f"r{i - 1}", f"r{i}"])
+    cd["edges"] += [["en", "r0"], [f"r{n - 1}", "r0"]]
+    return {"c": cd, "tmpl": "deep_ring", "repeat": False, "via": "graph"}
+
+
+def ring_model(net):
+    """(cons, pos, order) of a deep_ring circuit over the two variables (en, r0)."""
+    order = ["en", "r0"]
+    k = 2
+    mask = (1 << (1 << k)) - 1
+    pos = {"en": sim.var_bits(0, k), "r0": sim.var_bits(1, k)}
+    n = len(net.types) - 1
+    for i in range(1, n):
+        v = pos[f"r{i - 1}"]
+        pos[f"r{i}"] = v ^ mask if net.types[f"r{i}"] == "not" else v
+    want = sim.gate_bits(net.types["r0"], [pos["en"], pos[f"r{n - 1}"]], mask)
+    cons = (want ^ pos["r0"]) ^ mask
+    return cons, pos, order
+
+
 def gen(rng, ctx):
     big = ctx.tier == "thorough"
+    if rng.random() < 0.002 or (ctx.gen_index == 1 and ctx.index < 5):
+        return gen_deep_ring(rng)
     maxn = 15 if big else 13
     ni = rng.randint(1, 4)
     tmpl = rng.choice(["back", "back", "back", "latch", "ring", "two_scc", "dense", "dense"])
@@ -74,10 +105,14 @@ def check(case, ctx):
     ctx.count(f"via:{case.get('via', 'graph')}")
     cyc = has_cycle(net.succs)
     ctx.count("cyclic" if cyc else "acyclic")
-    if len(net.types) > 16:
+    if case["tmpl"] == "deep_ring":
+        cons, pos_model, order = ring_model(net)
+    elif len(net.types) > 16:
         ctx.count("skipped:too_large")
         return
-    cons, order = sim.consistent_set(net)
+    else:
+        cons, order = sim.consistent_set(net)
+        pos_model = None
     nstable = sim.popcount(cons)
     if not cyc or not nstable:
         ctx.trivial()
@@ -126,7 +161,7 @@ def check(case, ctx):
     if cyc and not aux:
         ctx.violation("no_aux_input", "cyclic circuit unrolled without any auxiliary input")
         return
-    pos = {n: sim.var_bits(i, k) for i, n in enumerate(order)}
+    pos = pos_model or {n: sim.var_bits(i, k) for i, n in enumerate(order)}
     fixed = {i: pos[i] for i in net.inputs()}
     for a, f in aux.items():
         fixed[a] = pos[f]
@@ -146,5 +181,5 @@ def check(case, ctx):
 
 
 def gates(counters, table, tier):
-    need = ["tmpl:dense", "tmpl:back", "tmpl:latch", "tmpl:ring", "tmpl:two_scc", "cyclic", "has_stable_state", "no_stable_state", "multiple_stable_states_per_input", "cut_nodes:1", "cut_nodes:2", "output_is_input"]
+    need = ["tmpl:dense", "tmpl:back", "tmpl:latch", "tmpl:ring", "tmpl:two_scc", "cyclic", "has_stable_state", "no_stable_state", "multiple_stable_states_per_input", "cut_nodes:1", "cut_nodes:2", "output_is_input", "tmpl:deep_ring"]
     return [f"{k} seen {counters.get(k, 0)} times" for k in need if counters.get(k, 0) < 5]
